@@ -475,5 +475,12 @@ def rule_h(ctx):
     c12a(ctx)
 
 
+
+def rule_decoder_entry(ctx):
+    """What the stream decoder hands each delimited frame to: parse_or_ignore returns the decoded frame, refuses only buffers shorter than the header and turns a parse failure into CONNECTION_ERROR or nothing (shared C02.h)."""
+    from .c02 import rule_decoder_entry as de
+    de(ctx, 'C02.h')
+
+
 RULES = [('C04.a', rule_a), ('C04.b', rule_b), ('C04.c', rule_c), ('C04.d', rule_d), ('C04.e', rule_e),
-         ('C04.f', rule_f), ('C12.e', rule_g), ('C12.a', rule_h), ('C04.g', rule_i), ('C04.h', rule_j), ('C04.i', rule_k)]
+         ('C04.f', rule_f), ('C12.e', rule_g), ('C12.a', rule_h), ('C04.g', rule_i), ('C04.h', rule_j), ('C04.i', rule_k), ('C02.h', rule_decoder_entry)]
